@@ -149,8 +149,17 @@ MultiCondSameType(stmts) ==
      \E c1, c2 \in CmpLeaves(e) : \E n1 \in RefsOfCmp(c1), n2 \in RefsOfCmp(c2) :
         n1 # n2 /\ InType(stmts, n1) # "" /\ InType(stmts, n1) = InType(stmts, n2)
 
+(* KF-C05-latch-early-reader: a reader of a latch cell that comes BEFORE the write(.., set=, reset=) statement is lowered against the   *)
+(* placeholder cell and never wired to the latch combinator created by the write: it reads 0 for ever.                                  *)
+RECURSIVE ReadsOf(_)
+ReadsOf(e) == {x.m : x \in {y \in SubE(e) : y.k = "read"}}
+LatchEarlyReader(stmts) ==
+  \E w \in DOMAIN stmts : stmts[w].k = "write" /\ stmts[w].mode \in {"set_reset", "reset_set"} /\
+     \E i \in 1..(w - 1) : stmts[i].k \in {"let", "prop"} /\ stmts[w].m \in ReadsOf(stmts[i].e)
+
 KnownFinding(stmts, clause) ==
-  IF clause \in {"C01_value", "C06_enable"} /\ MultiCondSameType(stmts) THEN "KF-C01-multicondition-sametype"
+  IF clause \in {"C03_value", "C05_value"} /\ LatchEarlyReader(stmts) THEN "KF-C05-latch-early-reader"
+  ELSE IF clause \in {"C01_value", "C06_enable"} /\ MultiCondSameType(stmts) THEN "KF-C01-multicondition-sametype"
   ELSE IF clause \in {"C01_value", "C02_bag", "C06_enable", "C01_settles", "R2_equal"} /\ SharedOperandMerge(stmts) THEN "KF-C01-shared-operand-merge"
   ELSE IF clause = "C06_condition" /\ EnableDropped(stmts) THEN "KF-C06-enable-dropped"
   ELSE IF clause = "C06_enable" /\ NegatedShared(stmts) THEN "KF-C06-negated-shared-condition"
